@@ -26,6 +26,9 @@ func (prop) Run(c core.Case) core.Outcome {
 	out := core.Outcome{Class: e.Class(), Key: e.Key()}
 	out.Checks = append(out.Checks, e.ModelChecks(true)...)
 	out.Checks = append(out.Checks, e.ChecksC03()...)
+	// follow-up wp-c03b: deep dump around every read-only command; fiano re-reads what it saved
+	out.Checks = append(out.Checks, roDeepChecks(in, ops)...)
+	out.Checks = append(out.Checks, reparseChecks(e)...)
 	return out
 }
 
